@@ -268,6 +268,46 @@ def gen_pairs(ctx):
         if rng.random() < 0.05:
             a, b = b, a
         pairs.append((a, b, kind))
+    # LARGE-distance pairs (> 100 edits apart): the two-sided search gives up at its depth limit and stitches a forward
+    # and a backward partial result through lcs.fix()/overlap().  Shape: a motif W occurs once in one text, behind a short
+    # run (so the forward search still reaches it); the other text starts with a prefix of W and ends with a suffix of W
+    # that overlap inside W, separated by a long run of unrelated text.  The partial results then claim overlapping parts
+    # of W in ONE text only, which is what overlap() has to trim.  All four symmetries (swap, reverse) are generated.
+    def far_pair(mb, W, i, j, m_, n_, single, sym):
+        if mb:
+            fa, fb = ["α", "β", "γ"], ["д", "ж", "я"]
+        else:
+            fa, fb = ["x", "p", "q"], ["y", "r", "s"]
+
+        def filler(al, k):
+            return [al[0]] * k if single else [rng.choice(al) for _ in range(k)]
+        before = W[:i] + filler(fa, n_) + W[j:]
+        after = filler(fb, m_) + W
+        if sym & 1:
+            before, after = after, before
+        if sym & 2:
+            before, after = before[::-1], after[::-1]
+        return "".join(before).encode(), "".join(after).encode(), ("mb-far" if mb else "ascii-far")
+    for sym in range(4):
+        pairs.append(far_pair(False, list("MMMMMN"), 5, 2, 45, 60, True, sym))
+        pairs.append(far_pair(True, list("中中中中é"), 4, 1, 30, 90, True, sym))
+        pairs.append(far_pair(False, list("NMOOO"), 4, 2, 19, 100, False, sym))
+    nfar = 72 if ctx.tier == "quick" else 2000
+    for it in range(nfar):
+        mb = it % 3 == 0
+        mot = ["中", "é", "ü"] if mb else ["M", "N", "O"]
+        L = rng.randrange(3, 11)
+        W = [mot[0]] * (L - 1) + [mot[1]] if rng.random() < 0.5 else [rng.choice(mot) for _ in range(L)]
+        i_ = rng.randrange(2, L + 1)
+        j_ = rng.randrange(0, i_)
+        m_ = rng.randrange(8, 49)
+        n_ = rng.randrange(max(55, 108 - m_), 140)
+        a_, b_, k_ = far_pair(mb, W, i_, j_, m_, n_, rng.random() < 0.5, rng.randrange(4))
+        if rng.random() < 0.3:
+            # embed in lines so that the unified rendering has several hunks to get right as well
+            a_ = b"head\n" + a_.replace("x".encode(), b"x\n", 3) + b"\ntail\n"
+            b_ = b"head\n" + b_ + b"\ntail\n"
+        pairs.append((a_, b_, k_))
     invalid = [(b"\xff a", b"\xff b", "invalid"), (b"a", b"\xff", "invalid"), (b"\xffa", b"a", "invalid"), (b"\xc3", b"\xc3\xa9", "invalid"),
                (b"a\xed\xa0\x80b", b"ab", "invalid"), (b"\xc0\x80", b"\x00", "invalid")]
     m = 60 if ctx.tier == "quick" else 1000
@@ -409,7 +449,7 @@ def run(ctx):
     h = ctx.build_harness("c22")
     ctx.prove(required=REQUIRED)
     m = ctx.build_model("c22")
-    dist = {"pairs": 0, "invalid_pairs": 0, "edit_lists": 0, "apply_ok": 0, "apply_err": 0, "depth_limit_pairs": 0, "kinds": {}}
+    dist = {"pairs": 0, "invalid_pairs": 0, "edit_lists": 0, "apply_ok": 0, "apply_err": 0, "depth_limit_pairs": 0, "depth_limit_by_kind": {}, "over_100_unmatched_pairs": 0, "kinds": {}}
     nontrivial = set()
     samples = []
     evaluations = 0
@@ -456,7 +496,7 @@ def run(ctx):
     # ---- D ops: oracle
     for i, (a, b, kind) in enumerate(allpairs):
         r = impl[i]
-        f = fields(r, ["G", "E", "A", "U", "C"])
+        f = fields(r, ["G", "E", "A", "U", "C", "H"])
         replay = {"before_hex": hx(a), "after_hex": hx(b), "impl": r[:600]}
         valid = is_valid_utf8(a) and is_valid_utf8(b)
         if kind == "invalid" or not valid:
@@ -477,12 +517,19 @@ def run(ctx):
             edits = parse_edits(f["E"])
         except Exception:
             ctx.violation("strings:unparsable-edits", r[:200], replay); continue
+        if f["H"] == "1":
+            dist["depth_limit_pairs"] += 1          # measured inside the real search (export shim VerifC22HitLimit*)
+            dist["depth_limit_by_kind"][kind] = dist["depth_limit_by_kind"].get(kind, 0) + 1
+        elif f["H"] == "?":
+            dist["depth_limit_unknown"] = dist.get("depth_limit_unknown", 0) + 1
         if valid:
             # a completed two-sided search ends with D <= 50 per side, i.e. at most ~100 unmatched elements in total;
             # more unmatched elements than that means the depth limit was reached and the partial-lcs repair (fix()) ran
             matched = 0 if f["G"] == "-" else sum(int(x.split(":")[2]) for x in f["G"].split(","))
             if len(a.decode("utf-8")) + len(b.decode("utf-8")) - 2 * matched > 102:
-                dist["depth_limit_pairs"] += 1
+                dist["over_100_unmatched_pairs"] += 1
+                if f["H"] == "0":
+                    ctx.notes.append("instrumentation says the depth limit was not reached for a pair with > 102 unmatched elements: %r / %r" % (a[:40], b[:40]))
         # 1. Apply(a, Strings(a,b)) == b
         if f["A"].startswith("ok:"):
             got = unhx(f["A"][3:])
@@ -516,7 +563,7 @@ def run(ctx):
                 check_unified(ctx, a, edits, unhx(f["A"][3:]), f["U"], "Unified(%r..., %r...)" % (a[:30], b[:30]), replay, dist, 3)
             elif f["U"].startswith(("err", "PANIC")):
                 ctx.violation("unified:" + f["U"].split()[0], "ToUnified on Strings' edits -> %s" % f["U"][:100], replay)
-            nontrivial.add((kind, min(len(edits), 6), min(len(split_lines(a)), 5), a.endswith(b"\n"), b.endswith(b"\n"),
+            nontrivial.add((kind, f["H"], min(len(edits), 6), min(len(split_lines(a)), 5), a.endswith(b"\n"), b.endswith(b"\n"),
                             any(len(n) != len(n.decode("utf-8")) for _, _, n in edits)))
         else:
             nontrivial.add((kind, f["A"][:7], min(len(edits), 3)))
@@ -561,7 +608,7 @@ def run(ctx):
     # ---- correspondence with the Lean model (which is given the diagonals the real search returned)
     if m:
         _, mo, _ = ctx.run_bin(m, input_text="\n".join(mops) + "\n", timeout=1200)
-        impl_cmp = [re.sub(r" Cbad\S*$", " Cbad", x) for x in impl]
+        impl_cmp = [re.sub(r" Cbad\S*$", " Cbad", re.sub(r" H[01?]$", "", x)) for x in impl]
         for i, op, a_, b_ in ctx.diff_lines(mops, impl_cmp, mo.splitlines())[:20]:
             ctx.proof["broken"].append({"theorem": "correspondence C22 model vs lsp/diff",
                                         "why": "op %r impl=%r model=%r" % (op[:300], a_[:400], b_[:400])})
@@ -570,7 +617,9 @@ def run(ctx):
         "evaluations": evaluations,
         "distinct_nontrivial": len(nontrivial),
         "rule": "D: pairs (ASCII / multi-byte, 0..30 lines, 1..9 rune-level mutations clustered or spread, unrelated texts, 120..400-rune texts over a "
-                "2-3 letter alphabet that exhaust the search depth limit) and a separate invalid-UTF-8 stream, through Strings/Bytes/Apply/ToUnified; "
+                "2-3 letter alphabet, and LARGE-distance pairs (> 100 edits apart; a motif shared at start/end of one text and once in the other, all four symmetries, "
+                "ASCII and multi-byte, some embedded in lines) that exhaust the search depth limit so that partial results are stitched by lcs.fix/overlap; "
+                "distribution.depth_limit_pairs is MEASURED inside the real search by an export shim) and a separate invalid-UTF-8 stream, through Strings/Bytes/Apply/ToUnified; "
                 "A: edit lists (valid, shuffled, malformed: out of bounds / negative / overlapping / end<start; same-point insertions) through "
                 "Apply/lineEdits/ToUnified with 1..5 context lines; X: toDiffs on arbitrary diagonal lists. distinct_nontrivial counts distinct "
                 "(kind, #edits, #lines, trailing newlines, multi-byte replacement?) tuples for D and (mode, #edits, outcome, context) for A",
